@@ -42,6 +42,26 @@ def run_impl(case):
     return loop_impl.run_case(copy.deepcopy(case))
 
 
+def model_case(case):
+    """The case as the model sees it: a re-arm command (13) of handler h is the enqueue of one more signal with
+    the class / priority / source recorded for h in the case's 4th element."""
+    if len(case) < 4:
+        return case
+    rearm = {int(k): v for k, v in case[3].items()}
+
+    def conv(cmds, h):
+        out = []
+        for c in cmds:
+            if c[0] == 13:
+                out.append([0] + rearm[h])
+            elif c[0] == 9:
+                out.append([9, c[1], conv(c[2], h), conv(c[3], h)])
+            else:
+                out.append(c)
+        return out
+    return [case[0], [conv(b, h) for h, b in enumerate(case[1])], case[2]]
+
+
 def monitor(code, traces):
     return lib.model_run("mon", [[code, t] for t in traces])
 
@@ -211,6 +231,8 @@ def run(chk, tier, prop):
     if prop in ("C01",):
         for k in range(n // 5):
             cases.append(loop_gen.gen_ties_case(rng))
+        for k in range(n // 10):
+            cases.append(loop_gen.gen_rearm_case(rng))
     if prop in ("C03", "C09", "C10"):
         for k in range(n // 3 if prop == "C09" else n):
             cases.append(loop_gen.gen_nested_case(rng, prop))
@@ -229,7 +251,7 @@ def run(chk, tier, prop):
     CH = 4000
     models = []
     for a in range(0, len(kept), CH):
-        models += lib.model_run("loop", kept[a:a + CH])
+        models += lib.model_run("loop", [model_case(c) for c in kept[a:a + CH]])
     verdicts = []
     for a in range(0, len(kept), CH):
         verdicts += monitor(MON[prop], [i[1] for i in impl[a:a + CH]])
@@ -256,6 +278,12 @@ def run(chk, tier, prop):
             chk.violation("C09:run-did-not-return", "a handler requested exit (ExitMainLoop) but run() never returned: the loop is waiting on its queue (theorem C09_stops / C02_run_returns_only: the model returns with outcomes %s)" % m[0],
                           dict(kind="loop", prop=prop, case=c, trace=pretty(i[1])[-40:]), found=True)
             nbad += 1
+        elif prop == "C09" and i[0] != m[0] and 2 in i[0] and any(a == [1] for a in c[2]) and \
+                [k for k, o in enumerate(i[0]) if o == 2 and k < len(c[2]) and c[2][k] == [1]] and \
+                not [k for k, o in enumerate(m[0]) if o == 2 and k < len(c[2]) and c[2][k] == [1]]:
+            chk.violation("C09:handler-failure-ended-run", "run() was ended by an ordinary exception of a handler (theorems C02_dispatch_catches / C09_failing_handler_does_not_stop: a failing handler never stops the loop); outcomes implementation %s, model %s" % (i[0], m[0]),
+                          dict(kind="loop", prop=prop, case=c, trace=pretty(i[1])[-40:]), found=True)
+            nbad += 1
         elif project(prop, i) != project(prop, m):
             chk.violation("corr:%s" % prop,
                           "implementation and model disagree on the %s-relevant part of a session (monitor still accepts the implementation trace)" % prop,
@@ -273,7 +301,7 @@ def replay(path, prop):
     d = json.load(open(path))["replay"]
     c = d["case"]
     rej, idx, i = impl_rejects(prop, c)
-    m = lib.model_run("loop", [c])[0]
+    m = lib.model_run("loop", [model_case(c)])[0]
     print("outcomes impl/model:", i[0], m[0])
     print("monitor on implementation trace:", "REJECTED at %s" % idx if rej else "accepted")
     for l in pretty(i[1], idx):
